@@ -573,6 +573,8 @@ Proof.
   intros Hm w w' r E. unfold catch in E. destruct (m w) as [w1 [a|st]] eqn:Em; injection E as _ <-; [|exact I].
   exact (Hm _ _ _ Em).
 Qed.
+Lemma r_bind_exit {A B} st (f : A -> M B) F : returns (bind (exit_with st) f) F.
+Proof. intros w w' x E. cbn in E. discriminate. Qed.
 Lemma r_weaken {A} (m : M A) (F G : A -> Prop) : (forall a, F a -> G a) -> returns m F -> returns m G.
 Proof. intros I H w w' a E. apply I. exact (H w w' a E). Qed.
 
@@ -581,6 +583,9 @@ Proof.
   intros T. unfold auth_key, akey_wf. destruct (id =? SRTP_HMAC_SHA1_c) eqn:E; cbn [ak_tag ak_kind ak_prefix]; rewrite E; auto.
 Qed.
 
+Lemma pair_some_inj {A B} (a c : A) (b d : B) : (a, Some b) = (c, Some d) -> b = d.
+Proof. intros H. injection H as _ E. exact E. Qed.
+(* (no injection on the unfolded derive_keys: it normalises the whole let-chain) *)
 Lemma derive_keys_shape p mkey mki st d :
   derive_keys p mkey mki = (st, Some d) ->
   k_mki (d_keys d) = mki /\
@@ -590,8 +595,8 @@ Proof.
   unfold derive_keys.
   match goal with |- context [if ?c then (st_bad_param, None) else _] => destruct c; [intros H; discriminate|] end.
   match goal with |- context [if ?c then (st_bad_param, None) else _] => destruct c; [intros H; discriminate|] end.
-  destruct (has_xtn p); intros H; injection H as _ <-; cbn [d_keys k_mki k_rtp_a k_rtcp_a];
-    (split; [reflexivity|]; split; eexists; reflexivity).
+  destruct (has_xtn p); intros H; apply pair_some_inj in H; subst d;
+  (split; [reflexivity|]; split; eexists; reflexivity).
 Qed.
 
 Lemma mki_copy_length msz (id : bytes) :
@@ -631,7 +636,7 @@ Theorem stream_init_wf owned :
   0 <= p_mki_size p -> returns (stream_init p owned) (fun r => stream_wf (fst r)).
 Proof.
   intros Hm. unfold stream_init, check_st.
-  destruct (valid_policy p =? st_ok) eqn:EV; [|apply r_bind; intros; apply r_exit].
+  destruct (valid_policy p =? st_ok) eqn:EV; [|apply r_bind_exit].
   apply Z.eqb_eq in EV. destruct (valid_policy_envelope p Hm EV) as (_ & _ & R).
   apply r_bind; intros _. apply r_bind; intros _. apply r_bind; intros ok.
   apply r_if; [apply r_exit|]. destruct (rdbx_init _) as [rx|]; [|apply r_exit].
